@@ -17,6 +17,7 @@ pub mod dgram;
 pub mod mtud;
 pub mod streams;
 pub mod wire;
+pub mod rxpn;
 
 use crate::{Rng, Runner};
 
@@ -49,6 +50,7 @@ pub fn lookup(name: &str) -> Option<(&'static str, GenFn)> {
         "dgram" => (dgram::DGRAM_RULE, dgram::dgram as GenFn),
         "mtud" => (mtud::MTUD_RULE, mtud::mtud as GenFn),
         "streams" => (streams::STREAMS_RULE, streams::streams as GenFn),
+        "rxpn" => (rxpn::RXPN_RULE, rxpn::rxpn as GenFn),
         _ => return None,
     })
 }
